@@ -4,12 +4,15 @@ import (
 	"encoding/json"
 	"fmt"
 	"math/rand"
+	"os"
 	"strings"
 
 	"github.com/yorkie-team/yorkie/pkg/document"
 	"github.com/yorkie-team/yorkie/pkg/document/change"
 	"github.com/yorkie-team/yorkie/pkg/document/crdt"
+	yjson "github.com/yorkie-team/yorkie/pkg/document/json"
 	"github.com/yorkie-team/yorkie/pkg/document/operations"
+	"github.com/yorkie-team/yorkie/pkg/document/presence"
 	"github.com/yorkie-team/yorkie/pkg/document/time"
 	"github.com/yorkie-team/yorkie/pkg/key"
 
@@ -65,7 +68,7 @@ func (w *c15Worker) Close() {}
 
 type c15Step struct {
 	W string    `json:"w"`
-	T string    `json:"t"` // edit | undo | redo | sync | round (W="*") | lead
+	T string    `json:"t"` // edit | undo | redo | sync | round (W="*") | lead | tick
 	E *gen.Edit `json:"e,omitempty"`
 }
 
@@ -84,7 +87,12 @@ type c15Replay struct {
 	Clear  bool       `json:"clear"` // histories cleared after the base document was built
 	N      int        `json:"n"`     // replicas
 	Base   []gen.Edit `json:"base"`
-	Steps  []c15Step  `json:"steps"`
+	// Skew names the replica that makes one unrelated edit after the base document is
+	// shared: every OTHER replica's Lamport clock is then one ahead of it. Which of two
+	// concurrent tickets is newer decides last-writer-wins races between an undo/redo and a
+	// peer's edit; without this the replica that edited last is always the one behind.
+	Skew  string    `json:"skew,omitempty"`
+	Steps []c15Step `json:"steps"`
 }
 
 var c15Actors = func() []time.ActorID {
@@ -110,6 +118,12 @@ type c15World struct {
 	steps   []c15Step
 	undone  int
 	pulled  int
+	ticks   int
+	// ever: per replica, the identity of every text piece / tree node it ever held;
+	// recreated: some replica brought back, as a NEW node, one that it had purged (by its own
+	// undo/redo or by applying a peer's): the precise precondition of F-UNDO-AFTER-PURGE
+	ever      map[string]map[string]bool
+	recreated bool
 	// arrayRisk: a change inserted an array element next to a tombstone (precondition of F-RGA-PURGE)
 	sawDupRestore bool
 	race          bool
@@ -152,6 +166,16 @@ func newC15World(res *runner.CaseResult, rp c15Replay) *c15World {
 	if rp.Clear {
 		for _, n := range w.names {
 			_ = w.docs[n].ClearHistory()
+		}
+	}
+	if d, ok := w.docs[rp.Skew]; ok {
+		_ = d.Update(func(root *yjson.Object, _ *presence.Presence) error {
+			root.SetInteger("skew", 1)
+			return nil
+		})
+		w.sync(rp.Skew)
+		for _, n := range w.names {
+			w.sync(n)
 		}
 	}
 	w.steps = nil
@@ -200,6 +224,12 @@ func (w *c15World) viol(kind, detail string) {
 		ident = "array-insert-next-to-tombstone:" + kind
 	case w.refTombstone && (kind == "sync-failed" || kind == "log-not-replayable" || kind == "replicas-diverged" || kind == "late-replica-differs"):
 		ident = "undo-after-purge:array-anchor:" + kind
+	case w.recreated && (kind == "replicas-diverged" || kind == "late-replica-differs" || kind == "sync-failed" || kind == "log-not-replayable"):
+		// F-UNDO-AFTER-PURGE, observed precisely: some replica (the author of an undo/redo,
+		// or a peer applying it) had purged a text piece / tree node and re-created it from
+		// the restore span, while a replica that still held the tombstone revived it in
+		// place. Where a re-created node goes is a guess (C14 shows the single-client form).
+		ident = "undo-after-purge:recreated:" + kind
 	case w.undoAfterPurge && w.rp.Family == "exhaustive-text" && w.textEditedByTwoActors():
 		// GC-recreate of purged text next to content another client wrote: the collected
 		// replicas and a replica that still holds the tombstones place it differently.
@@ -210,7 +240,33 @@ func (w *c15World) viol(kind, detail string) {
 		// family; the exhaustive text / array / object families stay fully judged
 		ident = "undo-after-purge:" + w.rp.Family + ":" + kind
 	}
+	if ident != "" {
+		// a symptom of a recorded finding: counted every time, kept (for the KNOWN-FINDING
+		// line and its replay) only a few times per case - it must not use up the budget
+		// that ends an enumeration
+		w.res.AddStat("attributed_to_recorded_findings", 1)
+		n := 0
+		for _, v := range w.res.Viol {
+			if v.Ident == ident {
+				n++
+			}
+		}
+		if n >= 2 {
+			return
+		}
+	}
 	w.res.Violate(kind, fmt.Sprintf("%s\n(family %s, gc=%v, histories cleared=%v) history: %s", detail, w.rp.Family, w.rp.GC, w.rp.Clear, strings.Join(prog, "; ")), ident, rp)
+}
+
+// unattributed counts the violations of a case that no recorded finding explains.
+func unattributed(res *runner.CaseResult) int {
+	n := 0
+	for _, v := range res.Viol {
+		if v.Ident == "" {
+			n++
+		}
+	}
+	return n
 }
 
 // textEditedByTwoActors: did two different clients write to a Text (pushed or not)?
@@ -246,11 +302,43 @@ func (w *c15World) textEditedByTwoActors() bool {
 	return false
 }
 
+// watchRecreation remembers what replica n holds now and returns a function to call after
+// the operation: a node that is back although it was absent just before the operation and
+// had been there earlier was re-created from a restore span after its purge.
+func (w *c15World) watchRecreation(n string) func() {
+	if !w.rp.GC {
+		return func() {}
+	}
+	if w.ever == nil {
+		w.ever = map[string]map[string]bool{}
+	}
+	if w.ever[n] == nil {
+		w.ever[n] = map[string]bool{}
+	}
+	before := c14NodeIDs(w.docs[n])
+	for id := range before {
+		w.ever[n][id] = true
+	}
+	return func() {
+		if w.recreated {
+			return
+		}
+		for id := range c14NodeIDs(w.docs[n]) {
+			if !before[id] && w.ever[n][id] {
+				w.recreated = true
+				w.res.AddStat("replicas_that_recreated_a_purged_node", 1)
+				return
+			}
+		}
+	}
+}
+
 func (w *c15World) sync(n string) {
 	if w.bad {
 		return
 	}
 	d := w.docs[n]
+	defer w.watchRecreation(n)()
 	pack := d.CreateChangePack()
 	for _, c := range pack.Changes {
 		pb, raw, err := viaWire([]*change.Change{c}, d.Key())
@@ -365,6 +453,7 @@ func (w *c15World) do(st c15Step) bool {
 			w.undoAfterPurge = true
 			w.res.AddStat("undo_redo_calls_after_a_purge", 1)
 		}
+		defer w.watchRecreation(st.W)()
 		nBefore := len(d.CreateChangePack().Changes)
 		if err := safeUndo(d, st.T == "undo"); err != nil {
 			w.viol(st.T+"-failed", fmt.Sprintf("%s on replica %s returned: %v", st.T, st.W, err))
@@ -400,6 +489,29 @@ func (w *c15World) do(st c15Step) bool {
 		w.steps = append(w.steps, st)
 		w.sync(st.W)
 		w.checkIndexes("after sync of " + st.W)
+	case "tick":
+		// st.W makes one unrelated edit and everybody else pulls it: their Lamport clocks are
+		// now AHEAD of st.W's. Without this the replica that acted last before a round is
+		// always the one behind, and a last-writer-wins race between an undo/redo and a
+		// peer's concurrent edit is only ever seen one way round. (A presence-only change
+		// would not do: it does not advance the clock.)
+		w.steps = append(w.steps, st)
+		w.ticks++
+		n := w.ticks
+		if err := d.Update(func(root *yjson.Object, _ *presence.Presence) error {
+			root.SetInteger("tick", n)
+			return nil
+		}); err != nil {
+			w.viol("update-failed", "tick: "+err.Error())
+			return false
+		}
+		w.sync(st.W)
+		for _, o := range w.names {
+			if o != st.W {
+				w.sync(o)
+			}
+		}
+		w.res.AddStat("clock_ticks", 1)
 	case "lead":
 		defer w.checkIndexes("after lead")
 		// st.W pushes, everybody else pulls and acknowledges, st.W syncs again: st.W has
@@ -773,6 +885,8 @@ var c15Families = []string{"text", "array", "tree", "object"}
 const c15Chunks = 8
 
 // configs: family x gc x clear
+var c15Skews = []string{"", "A", "B"}
+
 var c15ExhCases = len(c15Families) * 2 * 2 * c15Chunks
 
 func c15IsDelete(e gen.Edit) bool {
@@ -818,6 +932,7 @@ func (w *c15Worker) runExhaustive(res *runner.CaseResult, idx int) {
 	family := c15Families[cfg%len(c15Families)]
 	gc := (cfg/len(c15Families))%2 == 0
 	clear := (cfg/len(c15Families)/2)%2 == 0
+	skew := "" // the exhaustive family moves the clocks with "tick" steps instead
 	maxLen, k, maxUndo := 5, 3, 2
 	if w.tier == "thorough" {
 		maxLen, k, maxUndo = 6, 3, 3
@@ -825,7 +940,7 @@ func (w *c15Worker) runExhaustive(res *runner.CaseResult, idx int) {
 	if family == "array" && w.tier != "thorough" {
 		k = 2
 	}
-	rp := c15Replay{Family: "exhaustive-" + family, Seed: w.seed, Idx: idx, GC: gc, Clear: clear, N: 2, Base: c14Base(family)}
+	rp := c15Replay{Family: "exhaustive-" + family, Seed: w.seed, Idx: idx, GC: gc, Clear: clear, Skew: skew, N: 2, Base: c14Base(family)}
 	ordinal := 0
 	stop := false
 	var rec func(prefix []c15Step)
@@ -877,6 +992,11 @@ func (w *c15Worker) runExhaustive(res *runner.CaseResult, idx int) {
 					next = append(next, c15Step{W: n, T: "sync"})
 				}
 			}
+			if len(prefix) > 0 && (prefix[len(prefix)-1].T == "round" || prefix[len(prefix)-1].T == "lead") && world.ticks == 0 {
+				for _, n := range world.names {
+					next = append(next, c15Step{W: n, T: "tick"})
+				}
+			}
 			if len(prefix) > 0 && prefix[len(prefix)-1].T != "round" && prefix[len(prefix)-1].T != "lead" {
 				next = append(next, c15Step{W: "*", T: "round"})
 				if gc {
@@ -886,12 +1006,25 @@ func (w *c15Worker) runExhaustive(res *runner.CaseResult, idx int) {
 				}
 			}
 		}
+		if os.Getenv("VERIF_C15_FIND") != "" {
+			var ps []string
+			for _, st := range prefix {
+				ps = append(ps, st.String())
+			}
+			if strings.HasPrefix(os.Getenv("VERIF_C15_FIND"), strings.Join(ps, "; ")) && len(ps) > 0 {
+				var ns []string
+				for _, st := range next {
+					ns = append(ns, st.String())
+				}
+				fmt.Printf("FIND cfg=%s gc=%v clear=%v prefix=[%s] next=%v\n", family, gc, clear, strings.Join(ps, "; "), ns)
+			}
+		}
 		if undos > 0 && (len(prefix) >= 3 || chunk == 0) {
 			world.finish()
 			if world.undone > 0 && world.pulled > 0 {
 				res.AddStat("nontrivial_histories", 1)
 			}
-			if world.bad && len(res.Viol) >= 3 {
+			if world.bad && unattributed(res) >= 3 {
 				stop = true
 			}
 		}
@@ -900,9 +1033,9 @@ func (w *c15Worker) runExhaustive(res *runner.CaseResult, idx int) {
 		}
 	}
 	rec(nil)
-	res.Hash = fmt.Sprintf("exh-%s-%v-%v-%d", family, gc, clear, chunk)
+	res.Hash = fmt.Sprintf("exh-%s-%v-%v-%s-%d", family, gc, clear, skew, chunk)
 	res.Nontrivial = res.Stats["nontrivial_histories"] > 0
-	res.AddSet("configurations", fmt.Sprintf("exhaustive-%s gc=%v cleared=%v", family, gc, clear))
+	res.AddSet("configurations", fmt.Sprintf("exhaustive-%s gc=%v cleared=%v clock-skew=%q", family, gc, clear, skew))
 	b, _ := json.Marshal(map[string]any{"family": "exhaustive-" + family, "gc": gc, "cleared": clear, "chunk": chunk, "max_len": maxLen, "alphabet_per_state": k, "histories_in_chunk": res.Stats["histories_evaluated"]})
 	res.Sample = b
 }
@@ -915,6 +1048,7 @@ func (w *c15Worker) runRandom(res *runner.CaseResult, idx int) {
 	prof.NoDedup = true
 	prof.NoArrSet = true
 	rp := c15Replay{Family: "random", Seed: w.seed, Idx: idx, GC: rng.Intn(4) != 0, Clear: rng.Intn(2) == 0, N: 2 + rng.Intn(2), Base: gen.InitEdits()}
+	rp.Skew = c15Skews[idx%len(c15Skews)]
 	world := newC15World(res, rp)
 	var vet Vetoed
 	guard := makeGuardDoc(Guards{InsertBeforeTombstone: rp.GC}, &vet)
